@@ -57,8 +57,24 @@ func firstDiff(a, b []string) string {
 }
 
 // genTrackPiece makes pieces with control changes and rests anywhere and chords of 3..6 notes.
+// oddValues are lengths that arithmetic shortcuts get wrong: ordinary values written with numerals of 2^63 and
+// more, and dyadic values whose exact tick count misses a half tick by 2^-46 (exact in float64, but 960 times
+// them is not).
+var oddValues = [][]model.Frac{
+	{{Num: 2, Den: 1}, {Num: 9223372036854775807, Den: 9223372036854775808}},
+	{{Num: 18446744073709551615, Den: 9223372036854775808}},
+	{{Num: 18446744073709551614, Den: 18446744073709551615}},
+	{{Num: 13835058055282163712, Den: 9223372036854775808}},
+	{{Num: 4487180253729041, Den: 4503599627370496}},
+	{{Num: 4243235273913139, Den: 4503599627370496}},
+	{{Num: 1, Den: 2}, {Num: 775228998357265, Den: 2251799813685248}},
+}
+
 func genTrackPiece(r *rand.Rand, maxLen int) model.Piece {
 	p := model.RandPiece(r, model.GenOpts{MinLen: 1, MaxLen: maxLen, RestProb: 0.3, SettingProb: 0.2, TextProb: 0.15, KeyChanges: true, BassProb: 0.4, MaxDeg: 9})
+	if r.Intn(8) == 0 {
+		p.Inst[r.Intn(len(p.Inst))].Values = append([]model.Frac(nil), oddValues[r.Intn(len(oddValues))]...)
+	}
 	if r.Intn(2) == 0 { // trailing rest
 		p.Inst = append(p.Inst, model.Instance{Values: model.RandValues(r)})
 	}
@@ -323,6 +339,22 @@ func checkC06(c *core.Ctx) {
 		}
 		if compareTracks(c, "beyond", i, p, []int{2, 3, 8}, true) {
 			c.Nontrivial(fmt.Sprintf("beyond%d", i))
+		}
+	})
+	// pieces longer than 2^32 ticks: 18..26 instances of 250,000 beats, a control change on each so that no track
+	// idles beyond 2^28 ticks
+	c.Stream("beyond32", c.N(4, 24), func(i int, r *rand.Rand) {
+		var p model.Piece
+		k := 18 + r.Intn(9)
+		for j := 0; j < k; j++ {
+			in := model.Instance{Values: []model.Frac{{Num: uint64(250000 + r.Intn(20000)), Den: 1}}, BPM: uint64(60 + r.Intn(120))}
+			if r.Intn(5) != 0 {
+				in.Chord = &model.ChordSpec{Deg: model.SimpleInterval(r, 7), Symbol: "m7"}
+			}
+			p.Inst = append(p.Inst, in)
+		}
+		if compareTracks(c, "beyond32", i, p, []int{2, 3, 5}, true) {
+			c.Nontrivial(fmt.Sprintf("beyond32-%d", i))
 		}
 	})
 }
